@@ -797,6 +797,146 @@ theorem parseOk_status {H : Http} {v : Bytes} {fld : Field} (hp : ParseOk H nSta
   | status e hs => exact hs
   | protocol e hm => exact absurd e (by decide)
 
+theorem parseOk_scheme {H : Http} {v : Bytes} {fld : Field} (hp : ParseOk H nScheme v fld) :
+    (H.parseScheme v).isSome = true := by
+  cases hp with
+  | header hne hps hn hv => exact absurd hps (by decide)
+  | scheme s e hs => simp [hs]
+  | authority a e ha => exact absurd e (by decide)
+  | path p e hpp => exact absurd e (by decide)
+  | method e hm => exact absurd e (by decide)
+  | status e hs => exact absurd e (by decide)
+  | protocol e hm => exact absurd e (by decide)
+
+theorem parseOk_authority_some {H : Http} {v : Bytes} {fld : Field} (hp : ParseOk H nAuthority v fld) :
+    (H.parseAuthority v).isSome = true := by
+  cases hp with
+  | header hne hps hn hv => exact absurd hps (by decide)
+  | scheme s e hs => exact absurd e (by decide)
+  | authority a e ha => simp [ha]
+  | path p e hpp => exact absurd e (by decide)
+  | method e hm => exact absurd e (by decide)
+  | status e hs => exact absurd e (by decide)
+  | protocol e hm => exact absurd e (by decide)
+
+theorem parseOk_path {H : Http} {v : Bytes} {fld : Field} (hp : ParseOk H nPath v fld) :
+    (H.parsePath v).isSome = true := by
+  cases hp with
+  | header hne hps hn hv => exact absurd hps (by decide)
+  | scheme s e hs => exact absurd e (by decide)
+  | authority a e ha => exact absurd e (by decide)
+  | path p e hpp => simp [hpp]
+  | method e hm => exact absurd e (by decide)
+  | status e hs => exact absurd e (by decide)
+  | protocol e hm => exact absurd e (by decide)
+
+/-! ### pseudo-header fields of the other kind of message (D-12f) -/
+
+/-- no field of the section is called `n` -/
+theorem lastVal_none {n : Bytes} {fs : List FieldLine} (h : lastVal n fs = none) : ∀ f ∈ fs, f.1 ≠ n := by
+  intro f hf e
+  have hnil : valuesOf n fs = [] := by simpa [lastVal] using h
+  have : f.2 ∈ valuesOf n fs := mem_valuesOf.mpr (by rw [← e]; exact hf)
+  rw [hnil] at this
+  cases this
+
+/-- the `Header` holds no `:status`: the section has no `:status` field -/
+theorem inv_no_status {H : Http} {fs : List FieldLine} {h : Header} (hi : Inv H fs h)
+    (hs : h.pseudo.status = none) : ∀ f ∈ fs, f.1 ≠ nStatus := by
+  apply lastVal_none
+  have := hi.status
+  rw [hs] at this
+  cases e : lastVal nStatus fs with
+  | none => rfl
+  | some v => rw [e] at this; cases this
+
+/-- the `Header` holds no request pseudo-header field: the section has none -/
+theorem inv_no_request_field {H : Http} {fs : List FieldLine} {h : Header} (hi : Inv H fs h)
+    (hr : h.pseudo.hasRequestField = false) :
+    ∀ f ∈ fs, f.1 ≠ nMethod ∧ f.1 ≠ nScheme ∧ f.1 ≠ nAuthority ∧ f.1 ≠ nPath ∧ f.1 ≠ nProtocol := by
+  simp only [Pseudo.hasRequestField, Bool.or_eq_false_iff, Option.isSome_eq_false_iff, Option.isNone_iff_eq_none] at hr
+  obtain ⟨⟨⟨⟨hm, hs⟩, ha⟩, hp⟩, hpr⟩ := hr
+  have h1 : lastVal nMethod fs = none := by rw [← hi.method]; exact hm
+  have h5 : lastVal nProtocol fs = none := by rw [← hi.protocol]; exact hpr
+  have h2 : lastVal nScheme fs = none := by
+    cases e : lastVal nScheme fs with
+    | none => rfl
+    | some v =>
+      exfalso
+      obtain ⟨fld, hpo⟩ := hi.accepted _ (lastVal_mem e)
+      have hsome := parseOk_scheme hpo
+      have := hi.scheme
+      rw [hs, e] at this
+      simp only [Option.bind_some] at this
+      rw [← this] at hsome
+      cases hsome
+  have h3 : lastVal nAuthority fs = none := by
+    cases e : lastVal nAuthority fs with
+    | none => rfl
+    | some v =>
+      exfalso
+      obtain ⟨fld, hpo⟩ := hi.accepted _ (lastVal_mem e)
+      have hsome := parseOk_authority_some hpo
+      have := hi.authority
+      rw [ha, e] at this
+      simp only [Option.bind_some] at this
+      rw [← this] at hsome
+      cases hsome
+  have h4 : lastVal nPath fs = none := by
+    cases e : lastVal nPath fs with
+    | none => rfl
+    | some v =>
+      exfalso
+      obtain ⟨fld, hpo⟩ := hi.accepted _ (lastVal_mem e)
+      have hsome := parseOk_path hpo
+      have := hi.path
+      rw [hp, e] at this
+      simp only [Option.bind_some] at this
+      rw [← this] at hsome
+      cases hsome
+  intro f hf
+  exact ⟨lastVal_none h1 f hf, lastVal_none h2 f hf, lastVal_none h3 f hf, lastVal_none h4 f hf, lastVal_none h5 f hf⟩
+
+/-- an accepted pseudo-header field bears one of the six names -/
+theorem fieldOk_pseudo_name {H : Http} {f : FieldLine} (hok : FieldOk H f) (hp : IsPseudo f.1) :
+    f.1 = nMethod ∨ f.1 = nScheme ∨ f.1 = nAuthority ∨ f.1 = nPath ∨ f.1 = nStatus ∨ f.1 = nProtocol := by
+  have h2 := hok.2
+  rw [if_pos hp] at h2
+  rcases h2 with h | h | h | h | h | h
+  · exact Or.inl h.1
+  · exact Or.inr (Or.inl h.1)
+  · exact Or.inr (Or.inr (Or.inl h.1))
+  · exact Or.inr (Or.inr (Or.inr (Or.inl h.1)))
+  · exact Or.inr (Or.inr (Or.inr (Or.inr (Or.inl h.1))))
+  · exact Or.inr (Or.inr (Or.inr (Or.inr (Or.inr h.1))))
+
+/-- accepted fields without a `:status`: every pseudo-header field is one defined for requests -/
+theorem definedFor_request {H : Http} {fs : List FieldLine} (hok : ∀ f ∈ fs, FieldOk H f)
+    (hno : ∀ f ∈ fs, f.1 ≠ nStatus) : DefinedFor requestPseudoNames fs := by
+  intro f hf hp
+  have hn := hno f hf
+  rcases fieldOk_pseudo_name (hok f hf) hp with h | h | h | h | h | h
+  · rw [h]; decide
+  · rw [h]; decide
+  · rw [h]; decide
+  · rw [h]; decide
+  · exact absurd h hn
+  · rw [h]; decide
+
+/-- accepted fields without a request pseudo-header field: every pseudo-header field is `:status` -/
+theorem definedFor_response {H : Http} {fs : List FieldLine} (hok : ∀ f ∈ fs, FieldOk H f)
+    (hno : ∀ f ∈ fs, f.1 ≠ nMethod ∧ f.1 ≠ nScheme ∧ f.1 ≠ nAuthority ∧ f.1 ≠ nPath ∧ f.1 ≠ nProtocol) :
+    DefinedFor responsePseudoNames fs := by
+  intro f hf hp
+  obtain ⟨n1, n2, n3, n4, n5⟩ := hno f hf
+  rcases fieldOk_pseudo_name (hok f hf) hp with h | h | h | h | h | h
+  · exact absurd h n1
+  · exact absurd h n2
+  · exact absurd h n3
+  · exact absurd h n4
+  · rw [h]; decide
+  · exact absurd h n5
+
 /-- the `Host` value `into_request_parts` looks at is the first `host` field of the section -/
 theorem inv_host {H : Http} {fs : List FieldLine} {h : Header} (hi : Inv H fs h) :
     hmGet h.fields nHost = (valuesOf nHost fs).head? := by
@@ -858,17 +998,24 @@ theorem inv_hosts {H : Http} {fs : List FieldLine} {h : Header} (hi : Inv H fs h
     hmGroup h.fields nHost = valuesOf nHost fs := by
   rw [hi.group nHost, valuesOf_regular_of_not_pseudo nHost (by decide)]
 
-/-- needs `H3.Gen.Headers.hostEveryValue = true` (the D-12e fix: every `Host` value is looked at): the
-    proof evaluates the generated constant. -/
+/-- needs `H3.Gen.Headers.hostEveryValue = true` (the D-12e fix: every `Host` value is looked at) and
+    `H3.Gen.Headers.otherKindRefused = true` (the D-12f fix: a parsed `:status` is refused): the
+    proof evaluates the generated constants. -/
 theorem intoRequestParts_ok {H : Http} {h : Header} {r : RequestParts} (e : h.intoRequestParts H = .ok r) :
+    h.pseudo.status = none ∧
     allFirst (hmGroup h.fields nHost) = true ∧
     ∃ auth m, chooseAuthority h.pseudo.authority (hmGet h.fields nHost) = .ok auth ∧ h.pseudo.method = some m ∧
       H.uriBuild h.pseudo.scheme auth h.pseudo.path = some r.uri ∧
       r.method = m ∧ r.protocol = h.pseudo.protocol ∧ r.headers = h.fields := by
   have hv : H3.Gen.Headers.hostEveryValue = true := rfl
+  have hk : H3.Gen.Headers.otherKindRefused = true := rfl
   unfold Header.intoRequestParts at e
-  rw [hv] at e
+  rw [hv, hk] at e
   simp only [Bool.true_and] at e
+  split at e
+  · cases e
+  rename_i hst
+  refine ⟨by simpa using hst, ?_⟩
   split at e
   · cases e
   rename_i hall
@@ -885,5 +1032,29 @@ theorem intoRequestParts_ok {H : Http} {h : Header} {r : RequestParts} (e : h.in
       · rename_i u hu
         cases e
         exact ⟨auth, m, hc, hm, hu, rfl, rfl, rfl⟩
+
+/-- needs `H3.Gen.Headers.otherKindRefused = true` (the D-12f fix: a parsed request pseudo-header
+    field is refused): the proof evaluates the generated constant. -/
+theorem intoResponseParts_ok {h : Header} {st : Nat} {m : HeaderMap} (e : h.intoResponseParts = .ok (st, m)) :
+    h.pseudo.hasRequestField = false ∧ h.pseudo.status = some st ∧ m = h.fields := by
+  have hk : H3.Gen.Headers.otherKindRefused = true := rfl
+  unfold Header.intoResponseParts at e
+  rw [hk] at e
+  simp only [Bool.true_and] at e
+  split at e
+  · cases e
+  rename_i hr
+  refine ⟨by simpa using hr, ?_⟩
+  split at e
+  · cases e
+  · rename_i s hs
+    cases e
+    exact ⟨hs, rfl⟩
+
+theorem intoResponseParts_ne_panic (h : Header) : h.intoResponseParts ≠ .panic := by
+  unfold Header.intoResponseParts
+  split
+  · simp
+  · split <;> simp
 
 end H3.Headers
